@@ -211,8 +211,11 @@ package crypto
 // receiver.)
 //@ axiom multi_eddsa_refines forall s hotstuff.QuorumSignature :: istype(s, Multi[*EDDSASignature]) ==> hotstuff.setlen(hotstuff.parts(s)) == len(as(s, Multi[*EDDSASignature]))
 
+// (own-signature-verifies: correctness of the signature scheme and of the replica's own key
+// configuration; assumed, the in-repo Sign implementations call into crypto libraries)
 //@ interface Base.Sign
 //@   ensures err == nil ==> signature != nil
+//@   ensures [own-signature-verifies] err == nil ==> hotstuff.setlen(hotstuff.parts(signature)) >= 1 && (forall id hotstuff.ID :: hotstuff.setmem(hotstuff.parts(signature), id) ==> sigvalid(self, signature, id, content(message)))
 //@   ensures err != nil ==> signature == nil
 //@   modifies alloc
 
